@@ -53,6 +53,9 @@ harness!(fub_poll_c2_inflight, fub::step_poll(&StepCfg { cap: 2, selfwakes: 0, m
 harness!(fub_poll_c2_handles, fub::step_poll(&StepCfg { cap: 2, selfwakes: 0, mon: fub::M_ALL, env_budget: 1, inflight_ok: false, quiet: false, handles: true }));
 harness!(fub_drop_c2, fub::step_drop(&StepCfg { cap: 2, selfwakes: 0, mon: fub::M_ALL, env_budget: 0, inflight_ok: false, quiet: false, handles: true }));
 
+// history witness: INV holds along real histories from a fresh collection
+harness!(reach_fub_c2_s3, crate::reach::bounded(2, 3));
+
 // Layer S: the slot map by itself
 harness!(sm_step_c3, crate::sm::step(3));
 harness!(sm_step_c4, crate::sm::step(4));
@@ -145,6 +148,7 @@ pub fn table() -> &'static [(&'static str, fn())] {
         ("fub_wake_c2", fub_wake_c2),
         ("fub_drop_c2", fub_drop_c2),
         ("sm_step_c3", sm_step_c3),
+        ("reach_fub_c2_s3", reach_fub_c2_s3),
         ("sm_step_c4", sm_step_c4),
         ("wm_lifecycle_c2", wm_lifecycle_c2),
         ("wl_fifo_c2", wl_fifo_c2),
